@@ -188,7 +188,7 @@ def run_task(task, acc):
                         for s, f in THR3:
                             yield dict(x=list(x), gaps=list(GAPSETS[0]), check_type=ct, suspect=s, fail=f, test_period=tp, data="ma")
             for ct in ("bogus", "STD", ""):
-                for x in alpha.all_seqs(SIGMA, 1, 2):
+                for x in alpha.all_seqs(SIGMA, 0, 2):   # (incl. the empty series: the rejection does not depend on the data)
                     for tp in (None, 120):
                         yield dict(x=list(x), gaps=list(GAPSETS[0]), check_type=ct, suspect=1.0, fail=0.25, test_period=tp)
         run_cases(acc, gen(), check_case)
